@@ -116,6 +116,64 @@ def power_space_for(case, hsp):
     return ift.PowerSpace(hsp, None if bb is None else tuple(bb))
 
 
+class _Spectrum:
+    """A stateful spectrum: the SAME object (and its bound method) is passed again after `parr` changed."""
+
+    def __init__(self):
+        self.parr = None
+
+    def __call__(self, k):
+        assert k.shape == self.parr.shape
+        return self.parr.copy()
+
+    def evaluate(self, k):
+        return self(k)
+
+
+def _spectrum_fn(k, parr=None):
+    assert k.shape == parr.shape
+    return parr.copy()
+
+
+def run_ohist(case):
+    """create_power_operator / PS_field called several times on one domain with ONE callable object whose
+    parameters change between the calls (instance with __call__, bound method, functools.partial)."""
+    import functools
+    import logging
+    import nifty.cl as ift
+    ift.logger.setLevel(logging.ERROR)
+    out = {"error": None, "steps": []}
+    try:
+        dom = mk_domain(case["dom"])
+        idx = case["idx"]
+        ps = ift.PowerSpace(dom[idx])
+        base = {"dom": dom_desc(dom), "pindex": [int(x) for x in ps.pindex.ravel()], "nbin": int(ps.size), "psp": space_desc(ps)}
+        spec = _Spectrum()
+        part = functools.partial(_spectrum_fn, parr=None)
+        for st in case["steps"]:
+            o = dict(base, error=None)
+            try:
+                parr = np.array(st["p"], dtype=np.float64)
+                spec.parr = parr
+                part.keywords["parr"] = parr
+                fn = {"instance": spec, "method": spec.evaluate, "partial": part}[case["how"]]
+                op = ift.create_power_operator(dom, fn, space=idx if len(dom) > 1 or case.get("give_space") else None)
+                o["out"] = arr_out(op(field_of(dom, st)))
+                o["psfield"] = [float(x) for x in ift.PS_field(ps, fn).asnumpy().ravel()]
+            except Exception as e:  # noqa: BLE001
+                o["error"] = type(e).__name__
+                o["message"] = str(e)[:200]
+            out["steps"].append(o)
+    except Exception as e:  # noqa: BLE001
+        out["error"] = type(e).__name__
+        out["message"] = str(e)[:200]
+    return out
+
+
+def ohist_steps(case):
+    return [dict(st, kind="powop", dom=case["dom"], idx=case["idx"], binbounds=None, p_callable=True) for st in case["steps"]]
+
+
 def history_steps(case):
     """The single power_analyze calls of a history case (same domain, same analysed spaces)."""
     return [dict(step, kind="analyze", dom=case["dom"], spaces=case["spaces"]) for step in case["steps"]]
@@ -125,6 +183,8 @@ def run_case(case):
     """Returns the observation dict (JSON-able)."""
     if case["kind"] == "ahist":      # several calls in ONE process on the SAME DomainTuple object
         return {"error": None, "steps": [run_case(sub) for sub in history_steps(case)]}
+    if case["kind"] == "ohist":
+        return run_ohist(case)
     return run_case_(case)
 
 
@@ -235,6 +295,25 @@ def analyze_terms(case, obs):
 
 def coq_check_(case, obs):
     kind = case["kind"]
+    if kind == "ohist":
+        if obs["error"] is not None or any(so["error"] is not None for so in obs["steps"]):
+            return "false"
+        subs = ohist_steps(case)
+        parts = []
+        for comp in ("re", "im"):
+            if any((sub.get("im") is None) != (so["out"]["im"] is None) for sub, so in zip(subs, obs["steps"])):
+                return "false"
+            calls, outs = [], []
+            for sub, so in zip(subs, obs["steps"]):
+                if sub.get(comp) is None:
+                    continue
+                calls.append("(ocall_of %s %d%%nat %s %d%%nat %s %s)" % (coq_dom(so["dom"]), case["idx"], cnats(so["pindex"]), so["nbin"],
+                                                                      cqs(sub["p"]), cqs(sub[comp])))
+                outs.append("(qcs %s)" % cqs(so["out"][comp]))
+            parts.append("(ohistory_ok %s %s)" % (C.clist(calls), C.clist(outs)))
+        for sub, so in zip(subs, obs["steps"]):          # PS_field evaluates the callable at that moment
+            parts.append("(eq_list (qcs %s) (qcs %s))" % (cqs(so["psfield"]), cqs(sub["p"])))
+        return " && ".join(parts)
     if kind == "ahist":
         calls, outs = [], []
         for sub, so in zip(history_steps(case), obs["steps"]):
@@ -328,6 +407,8 @@ def closeto(a, b):
 def signature(case, obs=None):
     if case["kind"] == "ahist":
         return {"fn": "power_analyze", "history": True, "dtype": "mixed"}
+    if case["kind"] == "ohist":
+        return {"fn": "create_power_operator", "history": True, "spectrum": case["how"], "dtype": "mixed"}
     sig = {"fn": {"times": "PowerDistributor.times", "adjoint": "PowerDistributor.adjoint_times",
                   "dof_times": "DOFDistributor.times", "dof_adjoint": "DOFDistributor.adjoint_times",
                   "powop": "create_power_operator", "analyze": "power_analyze"}[case["kind"]],
@@ -345,6 +426,16 @@ def direct_failure(case, obs):
     """None if the property holds for this case on the implementation, else a description.
     Exceptions of the code under test and non-finite results are failures, never crashes."""
     try:
+        if case["kind"] == "ohist":
+            if obs["error"] is not None:
+                return "create_power_operator history raised %s (%s)" % (obs["error"], obs.get("message"))
+            for i, (sub, so) in enumerate(zip(ohist_steps(case), obs["steps"])):
+                f = direct_failure_(sub, so)
+                if f is None and not np.array_equal(np.array(so["psfield"]), np.array(sub["p"], dtype=np.float64)):
+                    f = "PS_field is not the callable's current values"
+                if f:
+                    return "call %d of a sequence of create_power_operator calls with ONE %s whose parameters changed: %s" % (i, case["how"], f)
+            return None
         if case["kind"] == "ahist":
             for i, (sub, so) in enumerate(zip(history_steps(case), obs["steps"])):
                 f = direct_failure_(sub, so)
@@ -678,6 +769,20 @@ def gen_history(rng):
     return {"kind": "ahist", "dom": base["dom"], "spaces": sp, "steps": steps}
 
 
+def gen_ohistory(rng, i):
+    specs, (idx,) = gen_dom(rng, 1, False, maxtotal=100)
+    nb = int(len(np.unique(np.round(np.asarray(mk_space(specs[idx]).get_unique_k_lengths(), dtype=np.float64), 12))))
+    n = size_of(specs)
+    steps = []
+    for t in range(int(rng.integers(2, 5))):
+        cplx = bool(rng.integers(0, 2))
+        steps.append({"p": ints(rng, nb, 0, 12), "re": ints(rng, n), "im": ints(rng, n) if cplx else None})
+    if steps[0]["p"] == steps[1]["p"]:
+        steps[1]["p"] = [v + 1 for v in steps[1]["p"]]
+    return {"kind": "ohist", "dom": specs, "idx": idx, "give_space": bool(rng.integers(0, 2)),
+            "how": ["instance", "method", "partial"][i % 3], "steps": steps}
+
+
 KINDS = ["times", "adjoint", "powop", "dof_times", "dof_adjoint", "analyze", "analyze", "exact"]
 
 
@@ -784,11 +889,18 @@ def gen_cases(ctx, n, salt=10):
     out += steep_cases(ctx.rng(salt + 3000), max(24, n // 8))
     out += [gen_case(rng, KINDS[i % len(KINDS)]) for i in range(n)]
     rng2 = ctx.rng(salt + 1000)
+    for i in range(max(9, n // 16)):
+        try:
+            out.append(gen_ohistory(rng2, i))
+        except Exception:  # noqa: BLE001  (number of bins is read from the implementation; never crash the generator)
+            pass
     return out + [gen_history(rng2) for _ in range(max(6, n // 12))]
 
 
 def nontrivial_key(case, obs):
     """Hashable identity of a non-trivial case (>= 2 bins, some bin with >= 2 modes), else None."""
+    if case["kind"] == "ohist":
+        return json.dumps(["ohist", case["dom"], case["idx"], case["how"], [st["p"] for st in case["steps"]]])
     if case["kind"] == "ahist":
         bbs = {json.dumps(st["binbounds"]) for st in case["steps"]}
         return json.dumps(["ahist", case["dom"], case["spaces"], sorted(bbs)]) if len(bbs) >= 2 else None
@@ -844,7 +956,7 @@ class C10(C.Check):
         keys = {nontrivial_key(c, o) for c, o in zip(self.cases, self.obs)} - {None}
         dist = {}
         for c, o in zip(self.cases, self.obs):
-            k = signature(c)["fn"] + ("/history" if c["kind"] == "ahist" else "/complex" if c.get("im") is not None else "/real")
+            k = signature(c)["fn"] + ("/history" if c["kind"] in ("ahist", "ohist") else "/complex" if c.get("im") is not None else "/real")
             dist[k] = dist.get(k, 0) + 1
         binning = {"natural": 0, "custom": 0}
         ndom = {}
@@ -856,7 +968,7 @@ class C10(C.Check):
             errs += (o["error"] is not None) + sum(1 for so in o.get("steps", []) if so["error"] is not None)
         res.coverage.update({
             "evaluations": len(self.cases), "distinct_nontrivial": len(keys),
-            "rule": "generated product domains (1-3 sub-domains; analysed: harmonic RGSpace 1-D sizes 1-9 / 2-D up to 5x5 with dyadic distances, LMSpace lmax<=3; passive: RG, GL, PowerSpace, DOFSpace, LM, Unstructured), natural / midpoint-subset / linear / logarithmic / deliberately empty binnings, arbitrary dofdex for DOFDistributor, integer-valued real and complex fields; bin sums with a huge dynamic range (members m*2^e_b, exponents 30-100 apart between bins, both orders) and inf / -inf / nan in single bins for the adjoint distributors (compared exactly, clean bins through C10_adjoint_bin_independent) and steep spectra for power_analyze; forced classes (acted-on sub-domain in the middle of a product domain with > 1 pixel before and after; several harmonic sub-domains with spaces = 0 / 1 / tuples / None; sub-domains without volume factors); histories of 3-7 power_analyze calls on ONE domain with changing binnings (natural / custom / empty bins, failing call then retry with the same binning), fields, dtypes and phase flags, every call compared with the pure model of its own arguments; non-trivial = at least 2 bins and a bin with at least 2 modes; distinct by (kind, domain, space, binning, dofdex, phase flag, dtype)",
+            "rule": "generated product domains (1-3 sub-domains; analysed: harmonic RGSpace 1-D sizes 1-9 / 2-D up to 5x5 with dyadic distances, LMSpace lmax<=3; passive: RG, GL, PowerSpace, DOFSpace, LM, Unstructured), natural / midpoint-subset / linear / logarithmic / deliberately empty binnings, arbitrary dofdex for DOFDistributor, integer-valued real and complex fields; bin sums with a huge dynamic range (members m*2^e_b, exponents 30-100 apart between bins, both orders) and inf / -inf / nan in single bins for the adjoint distributors (compared exactly, clean bins through C10_adjoint_bin_independent) and steep spectra for power_analyze; forced classes (acted-on sub-domain in the middle of a product domain with > 1 pixel before and after; several harmonic sub-domains with spaces = 0 / 1 / tuples / None; sub-domains without volume factors); histories of 2-4 create_power_operator / PS_field calls with ONE stateful callable (instance with __call__, bound method, functools.partial) whose parameters change between the calls; histories of 3-7 power_analyze calls on ONE domain with changing binnings (natural / custom / empty bins, failing call then retry with the same binning), fields, dtypes and phase flags, every call compared with the pure model of its own arguments; non-trivial = at least 2 bins and a bin with at least 2 modes; distinct by (kind, domain, space, binning, dofdex, phase flag, dtype)",
             "samples": [{"case": {k: v for k, v in c.items() if k not in ("re", "im", "exact_p")}, "nbin": o.get("nbin"), "error": o["error"]}
                         for c, o in list(zip(self.cases, self.obs))[3:6]],
             "input_distribution": {"by_function": dist, "binning": binning, "n_subdomains": ndom, "cases_raising": errs},
